@@ -78,7 +78,50 @@ pub fn date_add_api<S: Src>(s: &mut S, ylo: i32, yhi: i32, subtract: bool) {
     core::mem::forget(date);
 }
 
+/// PlainDate::until with largestUnit year / month (DifferenceISODate behind the API): sign-uniform, balanced,
+/// the year-month part is the largest that does not pass the end date when applied to the *unconstrained* start day
+/// (ISODateSurpasses), and the days are the rest
+pub fn date_until_api<S: Src>(s: &mut S, ylo: i32, yhi: i32, by_year: bool) {
+    use temporal_rs::options::{DifferenceSettings, Unit};
+    let a = any_date_in(s, ylo, yhi);
+    let b = any_date_in(s, ylo, yhi);
+    let mut st = DifferenceSettings::default();
+    st.largest_unit = Some(if by_year { Unit::Year } else { Unit::Month });
+    let da = h::plain_date_new_unchecked(a, Calendar::default());
+    let db = h::plain_date_new_unchecked(b, Calendar::default());
+    let ea = ref_epoch_days(a.year, a.month, a.day);
+    let eb = ref_epoch_days(b.year, b.month, b.day);
+    let sign: i64 = if ea < eb { 1 } else if ea > eb { -1 } else { 0 };
+    vcover!(s, "C04.until.leap_day_to_feb_28", a.month == 2 && a.day == 29 && b.month == 2 && b.day == 28 && b.year > a.year);
+    match da.until(&db, st) {
+        Ok(d) => {
+            let (y, mo, w, dd) = (d.years().as_inner() as i64, d.months().as_inner() as i64, d.weeks().as_inner() as i64, d.days().as_inner() as i64);
+            vassert!(s, "C04.until.sign_uniform", y * sign >= 0 && mo * sign >= 0 && dd * sign >= 0 && w == 0);
+            vassert!(s, "C04.until.balanced", if by_year { mo.abs() < 12 } else { y == 0 });
+            // intermediate year-month and the constrained day reached by adding the year-month part
+            let mi = (a.year as i64) * 12 + (a.month as i64 - 1) + y * 12 + mo;
+            let (yi, mi1) = (mi.div_euclid(12) as i32, (mi.rem_euclid(12) + 1) as u8);
+            let di = a.day.min(ref_dim(yi, mi1));
+            vassert!(s, "C04.until.add_back_reaches_end", ref_epoch_days(yi, mi1, di) + dd == eb);
+            // maximal: (yi, mi, a.day) does not surpass b, one more month does (lexicographic on the raw triple)
+            let key = |yy: i32, mm: u8, d: u8| (yy as i64) * 10_000 + (mm as i64) * 100 + d as i64;
+            let here = key(yi, mi1, a.day);
+            let nx = mi + sign;
+            let next = key(nx.div_euclid(12) as i32, (nx.rem_euclid(12) + 1) as u8, a.day);
+            let end = key(b.year, b.month, b.day);
+            if sign != 0 {
+                vassert!(s, "C04.until.year_month_part_is_maximal", (here - end) * sign <= 0 && (next - end) * sign > 0);
+            }
+            core::mem::forget(d);
+        }
+        Err(_) => vassert!(s, "C04.until.succeeds_on_representable_dates", false),
+    }
+    core::mem::forget((da, db));
+}
+
 crate::harnesses! { REGISTRY;
+    c04_date_until_years_2020 [unwind 15] = |s| date_until_api(s, 2019, 2021, true);
+    c04_date_until_months_2020 [unwind 27] = |s| date_until_api(s, 2020, 2021, false);
     c04_date_add_api_2000 [unwind 14] = |s| date_add_api(s, 1999, 2001, false);
     c04_date_subtract_api_2000 [unwind 14] = |s| date_add_api(s, 1999, 2001, true);
 }
